@@ -7,6 +7,7 @@ from pathlib import Path
 
 sys.path.insert(0, str(Path(__file__).resolve().parent))
 VERIF = Path(__file__).resolve().parents[1]
+from lib import core  # noqa: E402
 props = [json.loads(l) for l in (VERIF / "properties.jsonl").read_text().splitlines() if l.strip()]
 checks, na = [], []
 for p in props:
@@ -16,7 +17,7 @@ for p in props:
         na.append({"property_id": pid, "reason": "no check built yet (model and theorems planned in DESIGN.md section 6)"})
         continue
     try:
-        m = importlib.import_module("props." + pid.lower())
+        m = core.load_plugin(pid)
         for a in ("LEVEL_TEXT", "LEVEL_NOTE", "TECHNIQUE", "correspond"):
             getattr(m, a)
     except Exception as e:  # plugin under construction
